@@ -850,6 +850,45 @@ def generate_big(rng: random.Random, n=None) -> dict:
             'ili_files': ili_files}
 
 
+def generate_many_lex(rng: random.Random, n=None) -> dict:
+    """MANY installed lexicons (a database that keeps every release of a multilingual
+    collection): *n* tiny independent lexicons, n just above 256 / 500, a few versions and
+    languages, shipped 64 per file."""
+    n = n or rng.choice([257, 300, 513])
+    vers = ['1.0', '1.1+x', '2']
+    langs = ['en', 'es', 'ja']
+    lexicons, order, resources, group = {}, [], [], []
+    for i in range(n):
+        lid, ver = 'm%03d' % (i // 2), vers[i % 2] if i % 7 else vers[2]
+        sp = '%s:%s' % (lid, ver)
+        if sp in lexicons:
+            continue
+        lexicons[sp] = {
+            'id': lid, 'version': ver, 'label': 'Many %d' % i, 'language': langs[i % 3],
+            'email': 'm@example.com', 'license': 'MIT', 'meta': None, 'extends': None,
+            'requires': [], 'frames': [],
+            'synsets': [{'id': '%s-s0' % lid, 'ili': '', 'partOfSpeech': 'n', 'meta': None,
+                         'definitions': [], 'relations': [], 'examples': []}],
+            'entries': [{'id': '%s-e0' % lid,
+                         'lemma': {'writtenForm': 'w%d' % i, 'partOfSpeech': 'n', 'tags': [],
+                                   'pronunciations': []},
+                         'forms': [], 'frames': [], 'meta': None,
+                         'senses': [{'id': '%s-k0' % lid, 'synset': '%s-s0' % lid,
+                                     'meta': None, 'relations': [], 'examples': [],
+                                     'counts': []}]}]}
+        order.append(sp)
+        group.append(sp)
+        if len(group) == 64:
+            resources.append({'name': 'r%d' % len(resources), 'lmf_version': '1.1',
+                              'lexicons': group})
+            group = []
+    if group:
+        resources.append({'name': 'r%d' % len(resources), 'lmf_version': '1.1',
+                          'lexicons': group})
+    return {'profile': {'many_lex': len(order)}, 'lexicons': lexicons, 'order': order,
+            'resources': resources, 'ili_files': []}
+
+
 def generate_hub(rng: random.Random, k=None) -> dict:
     """Sizes BETWEEN the small random universes and the thousand-row ones: a provider whose
     hub synset has *k* children (k around 64/100/128/256), a dependent that has the hub concept
